@@ -195,6 +195,24 @@ impl Reg {
         if !same {
             len_s.push_str("!ref-view-differs");
         }
+        // the iterator views: `ExactSizeIterator::len` of `iter()` / `iter_mut()`, `IntoIterator for &composition`, `into_inner`
+        let it_len = each!(self, c => c.iter().len());
+        let itm_len = each!(self, c => c.clone().iter_mut().len());
+        let mut via_ref: Vec<(String, u16, i32)> = match self {
+            Reg::Vec(c) => (&*c).into_iter().map(|(k, v)| (sym_text(k.element), k.isotope, *v)).collect(),
+            Reg::Map(c) => (&*c).into_iter().map(|(k, v)| (sym_text(k.element), k.isotope, *v)).collect(),
+            Reg::Enum(c) => (&*c).into_iter().map(|(k, v)| (sym_text(k.element), k.isotope, *v)).collect(),
+        };
+        via_ref.sort();
+        let mut inner: Vec<(String, u16, i32)> = match self {
+            Reg::Vec(c) => c.clone().into_inner().into_iter().map(|(k, v)| (sym_text(k.element), k.isotope, v)).collect(),
+            Reg::Map(c) => c.clone().into_inner().into_iter().map(|(k, v)| (sym_text(k.element), k.isotope, v)).collect(),
+            Reg::Enum(_) => ents.clone(),
+        };
+        inner.sort();
+        if it_len != len || itm_len != len || via_ref != ents || inner != ents {
+            len_s.push_str("!iterator-view-differs");
+        }
         format!("{}|{}|{}|{}|{}|{}", self.form(), cached as u8, micro(mass), micro(calc), len_s, e)
     }
     fn as_enum(&self) -> ChemicalComposition<'static> {
